@@ -17,9 +17,9 @@
        fragment, EQ..GE, AND/OR/XOR/NOT on bool, CONCAT on strings, FAILWITH; stage 2: bytes, SLICE, bitwise logic and shifts, PAIR n/UNPAIR n/GET k/UPDATE k, mutez and timestamp
        arithmetic, SUB_MUTEZ, the environment instructions AMOUNT BALANCE SENDER SOURCE SELF_ADDRESS NOW LEVEL CHAIN_ID
        for every environment with amounts in the mutez range; LAMBDA, EXEC, APPLY (first-class lambdas: closures, lambdas
-       stored in data structures, nested EXEC); sets and maps READ-ONLY (EMPTY_SET, EMPTY_MAP, MEM, GET, SIZE, ITER on
-       typed sets/maps of any comparable key type); NOT yet: UPDATE, GET_AND_UPDATE, MAP on maps, set/map literals
-       (modelled in both semantics and covered by the correspondence only),
+       stored in data structures, nested EXEC); sets and maps of any comparable key type: EMPTY_SET, EMPTY_MAP, MEM, GET, UPDATE, GET_AND_UPDATE, SIZE, ITER,
+       MAP on maps, set/map literals (pytezos' sorted Python lists agree with the reference's sorted lists: C01_compare_strict_order
+       + sorted insert/remove lemmas); APPLY does not capture sets/maps;
        LAMBDA_REC, PACK/hashes, tickets, operations/contracts),
      - programs accepted by [typecheck_nr] (Michelson typing + every MAP body returns the element type it got),
      and it is stronger than asked: it holds for every fuel (OutOfFuel on one side iff on the other) and for every
@@ -146,8 +146,31 @@ Theorem C01_ediv_spec : forall a b, (b <> 0)%Z ->
 Proof. exact euclid_spec. Qed.
 Print Assumptions C01_ediv_spec.
 
-(* sets and maps: the read-only instructions (EMPTY_SET, EMPTY_MAP, MEM, GET, SIZE, ITER) are part of the proved
-   simulation; spelled out for the lookups, for every comparable key type (composite keys included), without any
+(* the order on comparable values is a strict total order where it is defined, which is what makes the sorted-list sets and
+   maps of pytezos agree with the reference (no typing hypothesis: v_compare only answers on matching comparable shapes) *)
+Theorem C01_compare_strict_order :
+  (forall a b, v_compare a b = Some Eq -> a = b) /\
+  (forall a b c, v_compare a b = Some c -> v_compare b a = Some (CompOpp c)) /\
+  (forall a b c, v_compare a b = Some Lt -> v_compare b c = Some Lt -> v_compare a c = Some Lt).
+Proof. exact (conj v_compare_eq (conj v_compare_antisym v_compare_trans)). Qed.
+Print Assumptions C01_compare_strict_order.
+
+(* UPDATE on a set / on a map (also the map half of GET_AND_UPDATE): SetType.add/remove and MapType.update compute the
+   reference's sorted insert / removal *)
+Theorem C01_set_update_agree : forall t x (b : bool) l, typed x t -> comparable t = true -> typed (PSet t l) (TSet t) ->
+  (if b then v_set_add (erase x) (map erase l) else v_set_remove (erase x) (map erase l))
+  = Some (map erase (if b then py_set_add x l else py_set_remove x l)).
+Proof. intros t x b l Hx Hc Hs. exact (proj1 (set_update_agree t x b l Hx Hc Hs)). Qed.
+Print Assumptions C01_set_update_agree.
+
+Theorem C01_map_update_agree : forall kt vt k ov l, typed k kt -> comparable kt = true -> typed ov (TOption vt) ->
+  typed (PMap kt vt l) (TMap kt vt) ->
+  v_map_update (erase k) (erase ov) (map erase l)
+  = Some (map erase (py_map_update k (match ov with PSome v => Some v | _ => None end) l)).
+Proof. intros kt vt k ov l Hk Hc Ho Hm. exact (proj1 (map_update_agree kt vt k ov l Hk Hc Ho Hm)). Qed.
+Print Assumptions C01_map_update_agree.
+
+(* sets and maps are part of the proved simulation; spelled out for the lookups, for every comparable key type (composite keys included), without any
    sortedness assumption: MEM on a set and GET on a map — SetType.contains,
    MapType.get with their class checks — return what the reference rules prescribe, with the right class *)
 Theorem C01_mem_get_agree : forall (e : env) x t l vt lm,
